@@ -194,7 +194,13 @@ func Explore(p *Program, cfg Config) *Report {
 				if len(rep.Samples) < 5 && pr.Outcome == OutOK && pr.Sample != "" {
 					rep.Samples = append(rep.Samples, pr.Sample)
 				}
-				if cfg.StopOnViolation && len(pr.Violations) > 0 {
+				newViolation := false
+				for _, v := range pr.Violations {
+					if !cfg.Known[v.Label] {
+						newViolation = true
+					}
+				}
+				if cfg.StopOnViolation && newViolation {
 					if len(stack) > 0 || active > 0 {
 						rep.StoppedOnViolation = true
 					}
